@@ -450,9 +450,76 @@ class Core:
 CONFLICT_KINDS = ["duplicate", "duplicate content-less", "duplicate id", "parent loop", "missing parent", "unversioned parent", "non-directory parent", "versioning no contents"]
 
 
+def twin_spec(rng):
+    """Two sibling hierarchies with a same-named sub-directory (P/x/c..., Q/x...): the shape
+    in which a path string can stay the same while the directory behind it changes."""
+    P, Q = rng.sample(["d", "k", "m", "A", "B"], 2)
+    depth = rng.choice([1, 1, 2])
+    subs = rng.sample(["x", "y", "s"], depth)
+    spec = [[P, "dir", "", False], [Q, "dir", "", False]]
+    pp, qq = P, Q
+    for sname in subs:
+        pp, qq = f"{pp}/{sname}", f"{qq}/{sname}"
+        spec += [[pp, "dir", "", False], [qq, "dir", "", False]]
+    files = rng.sample(xformsim.NAME_POOL, rng.randint(1, 2))
+    for i, f in enumerate(files):
+        spec.append([f"{pp}/{f}", "file", f"{pp}/{f} v1\n" * (i + 1), rng.random() < 0.3])
+    if rng.random() < 0.5:
+        spec.append([f"{qq}/zq", "file", "zq v1\n", False])
+    if rng.random() < 0.5:
+        spec.append(["top", "file", "top v1\n", False])
+    spec.sort(key=lambda e: (e[0].count("/"), e[0]))
+    return spec, {"P": P, "Q": Q, "px": pp, "qx": qq, "subs": subs, "files": [f"{pp}/{f}" for f in files]}
+
+
+def twin_scenario(rng, c, info):
+    """Re-parent file(s) into the twin directory under the same name while an ancestor two
+    or more levels up changes identity, so that the final path string equals the old one and
+    the direct new parent itself is untouched."""
+    P, Q, px, qx = "t:" + info["P"], "t:" + info["Q"], "t:" + info["px"], "t:" + info["qx"]
+    kind = rng.choice(["swap", "swap", "replace", "rename-over"])
+    moved = [f for f in info["files"] if rng.random() < 0.8] or info["files"][:1]
+    for f in moved:
+        lab = "t:" + f
+        c.ops.append(["adjust_path", f.rsplit("/", 1)[1], qx, lab])
+        c.e[lab].update(parent=qx, touched=True)
+    if kind == "swap":
+        c.ops.append(["adjust_path", info["Q"], "root", P])
+        c.ops.append(["adjust_path", info["P"], "root", Q])
+        c.e[P].update(name=info["Q"], touched=True)
+        c.e[Q].update(name=info["P"], touched=True)
+    else:
+        # the old hierarchy goes away (what is left in it, deepest first) ...
+        if kind == "replace":
+            for x in reversed(c.subtree(P)):
+                e = c.e[x]
+                if not e["alive"] or e["parent"] == qx:
+                    continue
+                c.ops.append(["delete_contents", x])
+                if e["v"]:
+                    c.ops.append(["unversion_file", x])
+                e.update(alive=False, touched=True)
+        else:
+            other = c.free_name("root")
+            if other is None:
+                return None
+            c.ops.append(["adjust_path", other, "root", P])
+            c.e[P].update(name=other, touched=True)
+        # ... and the twin takes over its name
+        c.ops.append(["adjust_path", info["P"], "root", Q])
+        c.e[Q].update(name=info["P"], touched=True)
+    for x in (px, qx):
+        c.e[x]["touched"] = True
+    return "twin " + kind
+
+
 def generate_core(rng, tier):
     fmt = rng.choice(["bzr", "bzr", "git"])
-    spec = xformsim.gen_tree_spec(rng, 3, 7, targets=xformsim.SAFE_SYMLINK_TARGETS)
+    twin = rng.random() < 0.15
+    if twin:
+        spec, info = twin_spec(rng)
+    else:
+        spec = xformsim.gen_tree_spec(rng, 3, 7, targets=xformsim.SAFE_SYMLINK_TARGETS)
     unversioned = []
     if rng.random() < 0.3 and not any(e[0] == "u1" for e in spec):
         unversioned = [["u1", "file", "unversioned\n", False]]
@@ -460,6 +527,11 @@ def generate_core(rng, tier):
     steps = ["edit"] * rng.randint(1, 4) + [rng.choice(CONFLICT_KINDS) for _ in range(rng.choice([0, 1, 1, 1, 2, 2]))]
     rng.shuffle(steps)
     injected = []
+    if twin:
+        steps = ["edit"] * rng.randint(0, 2)
+        done = twin_scenario(rng, c, info)
+        if done:
+            injected.append(done)
     for st in steps:
         for _ in range(6):
             if (c.edit() if st == "edit" else c.inject(st)):
